@@ -12,9 +12,11 @@ def r201(ctx, fx, cg):
                    "clones do not outlive the call: if the owner hands out clones through an accessor (`fn …(&self) -> Arc<T> { self.x.clone() }`) that another "
                    "long-lived object stores, the unwrap fails at shutdown")
     n = 0
+    scanned = 0
     for f in sorted(fx.all_fns("mos"), key=lambda f: f.path):
         if not f.d.get("hir") or "::tests::" in f.path:
             continue
+        scanned += 1
         cnt = 0
         for x in lib.hwalk(f.hir["body"]):
             if x.get("k") == "mcall" and x.get("name") in ("unwrap", "expect"):
@@ -46,9 +48,10 @@ def r201(ctx, fx, cg):
                     ctx.finding(rid, key, "%s force-unwraps Arc::try_unwrap(self.%s) although %s hands a clone to %s, which keeps it for the lifetime of the process: "
                                 "after `shutdown`/`exit` the unwrap panics and the process ends with status 101 instead of 0" % (
                                     f.path, field, escapes[0][0].rsplit("::", 1)[1] + "()", escapes[0][1][0]), "%s:%s" % (f.file, x.get("ln")))
-    ctx.inst(rid, "scan", sample={"try_unwrap_sites": n}, nontrivial=False)
-    if n < 1:
-        ctx.fail_closed(rid, "no force-unwrapped Arc::try_unwrap found in crate mos (anchor moved)")
+    # zero sites is the goal (the one site the pinned tree had was repaired); the reverting mutant keeps the rule honest
+    ctx.inst(rid, "scan", sample={"force_unwrapped_try_unwrap_sites": n, "functions_scanned": scanned}, nontrivial=n > 0)
+    if scanned < 500:
+        ctx.fail_closed(rid, "only %d functions of crate mos scanned for Arc::try_unwrap" % scanned)
 
 
 def r202(ctx, fx, cg):
@@ -88,8 +91,16 @@ def r202(ctx, fx, cg):
                         spawned.add(r["id"])
     for a in accepts:
         key = "%s|accept" % a.path
-        callees = {lib.norm(lib.callee(t)[0] or "") for _, t in lib.calls(a)}
-        unblock = [c for c in callees if c.endswith(("set_nonblocking", "set_read_timeout", "set_ttl", "::incoming"))]
+        unblock = []
+        acc_blocks = [bi for bi, t in lib.calls(a) if lib.pm(lib.callee(t)[0], "TcpListener::accept")]
+        for bi, t in lib.calls(a):
+            cp = lib.callee(t)[0] or ""
+            # the *listener* is switched to non-blocking mode (argument `true`) on every path to the accept
+            if lib.pm(cp, "TcpListener::set_nonblocking") and len(t["args"]) > 1:
+                c = lib.op_const(t["args"][1])
+                is_true = c is not None and (c.get("bool") is True or c.get("int") == 1 or str(c.get("disp", "")).strip() == "true")
+                if is_true and all(lib.must_pass(a, [bi], ab) for ab in acc_blocks):
+                    unblock.append(lib.norm(cp))
         in_joined_thread = any(a.id in cg.reach([s]) for s in spawned)
         ctx.inst(rid, key, sample={"fn": a.path, "reached_from_spawned_thread": in_joined_thread, "unblocking_calls": unblock})
         if in_joined_thread and joins and not unblock:
@@ -189,9 +200,39 @@ def r205(ctx, fx):
         ctx.fail_closed(rid, "guard census below what was counted by hand (%d bodies, %d with two or more guards)" % (n, withg))
 
 
+def r206(ctx, fx):
+    rid = ctx.rule("R20.6", "a selected channel operation is completed in every arm: crossbeam's SelectedOperation panics when it is dropped without recv/send, so an "
+                   "arm of `match oper.index()` that only breaks out of the session loop kills the debug thread — and the join of that thread turns the process's "
+                   "exit status into 101")
+    n = 0
+    for f in sorted(fx.all_fns("mos"), key=lambda f: f.path):
+        if not f.d.get("hir") or "::tests::" in f.path or not any("SelectedOperation" in l["ty"] for l in f.locals):
+            continue
+        for m in lib.hwalk(f.hir["body"]):
+            if m.get("k") != "match":
+                continue
+            sc = lib.strip(m["scrut"])
+            if not (sc.get("k") == "mcall" and sc.get("name") == "index" and "SelectedOperation" in (lib.strip(sc["recv"]).get("ty") or "")):
+                continue
+            oper = lib.hpath(sc["recv"])
+            for i, a in enumerate(m["arms"]):
+                n += 1
+                key = "%s|select-arm#%d" % (f.path, i)
+                done = any(x.get("k") == "mcall" and x.get("name") in ("recv", "send") and lib.hpath(x["recv"]) == oper for x in lib.hwalk(a["body"]))
+                diverges = any(x.get("k") == "call" and "panic" in str(lib.hcallee(x)) for x in lib.hwalk(a["body"])) or "panic" in repr(lib.hdesc(a["body"]))
+                ctx.inst(rid, key, sample={"fn": f.path, "arm": i, "completes": done})
+                if not done and not diverges:
+                    ctx.finding(rid, key, "arm %d of the select in %s leaves the selected operation uncompleted: the thread panics (`dropped SelectedOperation without "
+                                "completing the operation`) — for the shutdown arm of the debug session this makes `mos lsp` end with status 101 whenever a "
+                                "debugger is attached" % (i, f.path.rsplit("::", 1)[-1]), "%s:%s" % (f.file, a.get("ln")))
+    if n < 3:
+        ctx.fail_closed(rid, "fewer than 3 select arms found (%d)" % n)
+
+
 def run(ctx):
     fx = ctx.facts
     cg = lib.CallGraph(fx)
+    r206(ctx, fx)
     r204(ctx, fx, cg)
     r205(ctx, fx)
     r201(ctx, fx, cg)
